@@ -29,6 +29,22 @@ def build(k, reply_at, ver, mode):
     return sc
 
 
+def build_history(ver, mode):
+    """A reused session: (stray, then silence -> timeout), then a reply in the middle of the timeout, then silence."""
+    vb = ber.varbind(ber.enc_oid([1, 3, 6, 1, 2, 1, 1, 3, 0]), ber.enc_value("tt", 4242))
+    sc = build(0, None, ver, mode)
+    stray = {"vbs": vb.hex(), "rid": 77, "delay": round(0.6 * T, 3)}
+    if ver == "v3":
+        stray["msgid"] = 5
+    get = {"op": "get", "args": ["1.3.6.1.2.1.1.3.0"]}
+    sc["steps"] = [dict(get, replies=[[{"vbs": vb.hex()}]]),                       # warm-up, delivered at once
+                   dict(get, replies=[[stray]], settle=0.05),                      # stray at 0.6 T, then silence: TimeoutError at T
+                   dict(get, replies=[[{"vbs": vb.hex(), "delay": round(0.5 * T, 3)}]]),   # reply at 0.5 T: must be delivered
+                   dict(get, replies=[[]]),                                        # silence: TimeoutError at T, not earlier
+                   dict(get, replies=[[stray, {"vbs": vb.hex(), "delay": round(0.8 * T, 3)}]])]  # stray then reply at 0.8 T: delivered
+    return sc
+
+
 def expected(k, reply_at):
     if reply_at is not None and reply_at <= T - 0.04:
         return "deliver"
@@ -73,6 +89,49 @@ def main(argv):
             if (late or (exp and got != exp)) and attempt < 2:
                 again.append(case)
         pending = again
+    # ---- histories on one session (the socket timeout must be the same for every call)
+    hist = [(ver, mode) for ver in ("v1", "v2c", "v3") for mode in ("sync", "async")]
+    want = ["deliver", "timeout", "deliver", "timeout", "deliver"]
+    pending_h = list(hist)
+    hres = {}
+    for attempt in range(3):
+        if not pending_h:
+            break
+        res, log = vf.run_api_worker("C18", {"scenarios": [build_history(v, m) for v, m in pending_h], "parallel": 6}, timeout=600)
+        if res is None:
+            c.errors.append("API worker failed: " + log[-1500:])
+            break
+        again = []
+        for hm, rec in zip(pending_h, res["records"]):
+            if "driver_error" in rec:
+                c.errors.append("API driver error: " + rec["driver_error"])
+                continue
+            hres[hm] = rec
+            for i, out in enumerate(rec["steps"]):
+                got = "deliver" if out["kind"] == "RET" else ("timeout" if out.get("exc") == "TimeoutError" else out.get("exc"))
+                if (got != want[i] or out["wall"] > T + SLACK or (want[i] == "timeout" and out["wall"] < 0.8 * T)) and attempt < 2:
+                    again.append(hm)
+                    break
+        pending_h = again
+    for (ver, mode), rec in hres.items():
+        c.count(("history", ver, mode), True)
+        walls = [o["wall"] for o in rec["steps"]]
+        for i, out in enumerate(rec["steps"]):
+            got = "deliver" if out["kind"] == "RET" else ("timeout" if out.get("exc") == "TimeoutError" else out.get("exc"))
+            if got != want[i]:
+                c.violation("%s/%s reused session, call %d of the history (timeout %.2fs): outcome %s after %.2fs, expected %s (walls %s)"
+                            % (ver, mode, i, T, got, out["wall"], want[i], walls), {"scenario": build_history(ver, mode), "walls": walls, "call": i},
+                            key="%s-history-outcome-%s-expected-%s" % (mode, got, want[i]))
+                break
+            if out["wall"] > T + SLACK:
+                c.violation("%s/%s reused session, call %d returned after %.2fs (timeout %.2fs)" % (ver, mode, i, out["wall"], T),
+                            {"scenario": build_history(ver, mode), "walls": walls}, key="%s-history-late" % mode)
+                break
+            if want[i] == "timeout" and out["wall"] < 0.8 * T:
+                c.violation("%s/%s reused session, call %d gave up after %.2fs although the session timeout is %.2fs: a reply arriving in "
+                            "between would have been lost" % (ver, mode, i, out["wall"], T), {"scenario": build_history(ver, mode), "walls": walls},
+                            key="%s-timeout-too-early" % mode)
+                break
     n = 0
     for case in cases:
         out = results.get(case)
@@ -99,7 +158,8 @@ def main(argv):
                       "the logical-clock model cannot exhibit scheduler latency, timer granularity or GIL hand-over (partial)"]
     return c.finish(
         rule="%d wall-clock schedules: timeout %.2fs, k in {0..4} stray well-formed non-matching datagrams %.2fs apart, matching reply absent / "
-             "early / late, x {v1, v2c, v3} x {sync, async}; bound T + %.2fs; non-trivial = at least one stray" % (n, T, 0.4 * T, SLACK),
+             "early / late, x {v1, v2c, v3} x {sync, async}, plus 6 five-call histories on a reused session (stray+timeout, mid-timeout reply, "
+             "silence, stray+reply); bound T + %.2fs, no give-up before 0.8 T; non-trivial = at least one stray" % (n, T, 0.4 * T, SLACK),
         extra={"schedules": n, "traces_validated_against_impl": n})
 
 
